@@ -223,6 +223,13 @@ func VerifC01Chain() {
 		// chain condition does not hold (a block moved to another position may, for instance, use symbols
 		// that its new predecessors do not declare)
 		vCover("unmarshal-error")
+		if errors.Is(uerr, ErrMissingSymbols) {
+			// the property speaks of well-formed tokens: a block whose content uses symbols that neither it nor
+			// its predecessors declare (an honest block signed again at another position, by whoever holds the
+			// key for that position) is not one. Honest tokens are never refused this way: VerifC01Honest, C07.
+			vCover("content-not-well-formed")
+			return
+		}
 		vAssert(vNot(spec), "C01.accept-iff-chain")
 		return
 	}
